@@ -885,3 +885,48 @@ Qed.
 Lemma accounting ctl st : reachable ctl st ->
   Acct (pending_rids st) (c_done st) (c_submitted st) (c_cancelled st).
 Proof. intros H. exact (inv_acct _ (inv_reachable _ _ H)). Qed.
+
+(* the peer can cut after any chunk: in an open state [Recv bs] is always enabled, and if the
+   connection is still open afterwards [Eof] puts it into teardown *)
+Lemma cut_anywhere st bs : c_status st = Open ->
+  exists st1, step st (Recv bs) = Some st1 /\
+    (c_status st1 <> Open \/
+     exists st2 e, step st1 Eof = Some st2 /\ c_status st2 = TearingDown e /\ (e = EHeaderIo \/ e = EClosedInBody)).
+Proof.
+  intros Ho. apply is_open_status in Ho. unfold step at 1. rewrite Ho. eexists. split; [reflexivity|].
+  match goal with |- c_status ?s <> Open \/ _ => set (s1 := s) end.
+  destruct (c_status s1) eqn:Es; [|left; discriminate|left; discriminate].
+  right. unfold step. assert (Ho1 : is_open s1 = true) by (apply is_open_status; exact Es). rewrite Ho1.
+  eexists. eexists. split; [reflexivity|]. rewrite fault_status, Es.
+  split; [reflexivity|]. destruct (List.length (c_rbuf s1) <? 9)%nat; tauto.
+Qed.
+
+(* top-level corollary: whatever happened before, once any step has put the connection into
+   teardown, [td_measure] teardown steps complete every request ever submitted *)
+Lemma fault_completes_all ctl ls l st st2 e :
+  run (conn_init ctl) ls = Some st -> step st l = Some st2 -> c_status st2 = TearingDown e ->
+  exists st3, run st2 (repeat TdStep (td_measure st2)) = Some st3 /\ c_status st3 = Broken e /\
+    c_err_sent st3 = true /\
+    forall r, In r (c_submitted st2) ->
+      (exists o, outcome_of r (c_done st3) = Some o) \/ In r (c_cancelled st3).
+Proof.
+  intros R Hst T.
+  assert (Hm : exists n, td_measure st2 = S n). { unfold td_measure. rewrite T. eexists. reflexivity. }
+  destruct Hm as [n Hm]. destruct (td_terminates n st2 e T Hm) as (st3 & R3 & B3 & P3 & E3).
+  exists st3. rewrite Hm. repeat split; try assumption.
+  intros r Hin.
+  assert (HR : reachable ctl st3).
+  { exists (ls ++ l :: repeat TdStep (S n)). rewrite run_app, R. cbn [run]. rewrite Hst. exact R3. }
+  apply (none_left ctl st3 e r HR B3).
+  (* submitted only grows *)
+  clear - R3 Hin. revert st2 R3 Hin. generalize (S n) as k.
+  induction k as [|k IH]; intros st2 R3 Hin; cbn [repeat run] in R3.
+  - injection R3 as <-. exact Hin.
+  - destruct (step st2 TdStep) as [s|] eqn:E; [|discriminate]. apply (IH s R3).
+    unfold step in E. destruct (c_status st2) as [|e0|e0]; try discriminate.
+    destruct (c_queue st2) as [|r0 q].
+    + destruct (c_handlers st2) as [|[s0 r0] h]; injection E as <-.
+      * exact Hin.
+      * destruct (complete_fields r0 (FailBroken e0) (set_handlers h st2)) as (_&_&_&_&_&_&E7&_). rewrite E7. exact Hin.
+    + injection E as <-. destruct (complete_fields r0 FailChannel (set_queue q st2)) as (_&_&_&_&_&_&E7&_). rewrite E7. exact Hin.
+Qed.
